@@ -129,6 +129,17 @@ pub fn run_events(sim: &mut Sim, case: &GCase, probe: &mut dyn FnMut(&Sim)) {
     }
 }
 
+/// The case a tape of choices denotes. Also the decoder of the coverage-guided tier
+/// (fuzz/fuzz_targets/tape_c02.rs).
+pub fn case_from_tape(tape: &[u16]) -> GCase {
+    let (cfg_tape, ev_tape) = tape.split_at(tape.len() * 2 / 3);
+    let b = build_cfg(cfg_tape, Profile::Boundary, true);
+    let mut t = Tape::new(ev_tape);
+    let loop_emu = t.chance(1, 2);
+    let events = unrestricted_events(&mut t, &b);
+    gcase_from(b, events, loop_emu)
+}
+
 impl TypedProp for C02 {
     type C = GCase;
     fn id(&self) -> &'static str {
@@ -161,16 +172,7 @@ impl TypedProp for C02 {
         Gen::Strat(0)
     }
     fn strategy(&self, _tier: Tier, _key: u32) -> BoxedStrategy<GCase> {
-        prop::collection::vec(any::<u16>(), 0..700)
-            .prop_map(|tape| {
-                let (cfg_tape, ev_tape) = tape.split_at(tape.len() * 2 / 3);
-                let b = build_cfg(cfg_tape, Profile::Boundary, true);
-                let mut t = Tape::new(ev_tape);
-                let loop_emu = t.chance(1, 2);
-                let events = unrestricted_events(&mut t, &b);
-                gcase_from(b, events, loop_emu)
-            })
-            .boxed()
+        prop::collection::vec(any::<u16>(), 0..700).prop_map(|tape| case_from_tape(&tape)).boxed()
     }
     fn judge(&self, case: &GCase) -> Verdict {
         let files: std::collections::HashMap<String, String> = case.files.iter().cloned().collect();
